@@ -450,7 +450,7 @@ func run(c *vf.Ctx) {
 	}
 	wg.Wait() // gated schedules first: their (deterministic) replay files are the ones kept per fingerprint
 	// ---- group scenarios
-	nGroup := c.Pick(400, 20000)
+	nGroup := c.Pick(1200, 24000)
 	for lo := 0; lo < nGroup; lo += 100 {
 		lo := lo
 		spawn(func() {
@@ -460,6 +460,7 @@ func run(c *vf.Ctx) {
 			}
 		})
 	}
+	wg.Wait() // group scenarios (their concurrent-creation half is timing sensitive) before the CPU-heavy stress children
 	// ---- stress, plain and -race
 	stress := func(n, per int, race bool) {
 		for lo := 0; lo < n; lo += per {
@@ -579,7 +580,7 @@ func run(c *vf.Ctx) {
 	c.Require("window:"+ptBeforePush, 50)
 	c.Require("window:"+ptBeforeWait, 50)
 	c.Require("group_wait_parked_observations", 500)
-	c.Require("group_scenarios_concurrent_creation", c.Pick(150, 5000))
+	c.Require("group_scenarios_concurrent_creation", c.Pick(500, 10000))
 	c.Require("stress_runs_submit_overlapping_shutdown", c.Pick(300, 15000))
 	c.Require("stress_runs_race_build", c.Pick(300, 9000))
 	c.Assume("a consistent runtime.Stack(all) snapshot in which every goroutine is parked on a sync primitive or channel (twice in a row, timer-free scenario) means no goroutine can ever run again")
